@@ -258,13 +258,13 @@ def rxStep (g : Group) (idx : String) : List String → Group × String
   -> `<idx> accept hooks=1/1 ctx=<path>?who=7 err=h0c<0|1>`  |  `<idx> reject hooks=0/0 ctx=- err=h1c0` -/
 def hsStep (idx cfg req end_ : String) : String :=
   let cfg := if cfg == "-" then "" else cfg
-  if !(end_ == "close" || end_ == "malformed" || end_ == "text" || end_ == "frag1" || end_ == "frag3") then idx ++ " bad-op" else
+  if !(end_ == "close" || end_ == "malformed" || end_ == "text" || end_ == "frag1" || end_ == "frag3" || end_.startsWith "stall") then idx ++ " bad-op" else
   if pathAccepted cfg.toList req.toList then
     -- accepted: one connect / one disconnect, the handshake-aware hook sees the request's path and query;
     -- the built-in loop reports one Connection error iff the reader returned Err
     -- `frag1`/`frag3`: the upgrade request arrives in pieces (immaterial), then the socket is dropped
     let cause : Cause := if end_ == "close" then .close else if end_ == "text" then .protocolViolation
-      else if end_.startsWith "frag" then .socketError else .malformedFrame
+      else if end_.startsWith "frag" || end_.startsWith "stall" then .socketError else .malformedFrame
     let m := (Sim.mk init true none none).acts ⟨Gen.Lifecycle.facts, 2, 1, 64, false⟩
       [.handshakeOk, .hookStart, .hookReturn, .hookStart, .hookReturn, .enterReader, .readerExit cause, .writerFinish, .writerJoined]
     let nc := (m.st.trace.filter (fun e => match e with | .connect 0 => true | _ => false)).length
